@@ -65,41 +65,86 @@ Proof.
 Qed.""" % (fi, F, M))
 
 
-def wrapper_without_dtype_asserts():
-    """The public wrapper compiled from its module's own source text (re-read on every run).  Every
-    `assert <x>.dtype == <D>` in any function of that module is rewritten to `assert _dtype_ok(<x>, <D>)`, which is the
-    same test for ordinary arrays (so the bool-mask input assertion and the integer face/mapping assertions stay live)
-    and is true for the tracer's object arrays of symbols (the float64 vertex assertions cannot be evaluated on those;
-    output dtypes are compared by the correspondence check instead).  Everything else — shape checks, mask -> face
-    indices, the call of slice_faces_plane, helpers the wrapper calls — runs as written.  Any other assertion that
-    mentions dtype is not understood: fail closed."""
+_DTYPE_ONLY_CALLS = {"all", "any", "zip", "isinstance", "len", "tuple", "list", "issubdtype", "dtype"}
+
+
+def _holds_symbols(x):
+    if isinstance(x, np.ndarray):
+        return x.dtype == object
+    if isinstance(x, (tuple, list)):
+        return any(_holds_symbols(e) for e in x)
+    return False
+
+
+def _dtype_assert(test, operands):
+    """A dtype-only assertion evaluated lazily: its own verdict when it holds; when it does not, it is waived iff one of the
+    values it talks about is (or contains) one of the tracer's object arrays of symbols — a dtype cannot be asserted of those;
+    output dtypes are compared by the correspondence check.  For ordinary arrays the assertion stays live."""
+    try:
+        if test():
+            return True
+    except Exception:
+        pass
+    for get in operands:
+        try:
+            if _holds_symbols(get()):
+                return True
+        except NameError:
+            pass
+    return False
+
+
+def wrapper_with_lazy_dtype_asserts():
+    """Fallback for tracing the public wrapper when one of its assertions cannot hold for symbolic arrays: the module's own
+    source (re-read on every run) with every assertion that ONLY talks about dtypes (mentions `.dtype`, calls nothing but
+    all / any / zip / isinstance / len / tuple / list / np.issubdtype / np.dtype) turned into `assert _dtype_assert(lambda: E, ...)`.
+    An assertion that mentions dtype and does anything else is not understood: fail closed.  Everything else runs as written."""
     import ast
     import inspect
 
     import polliwog.plane._slicing as mod
 
     tree = ast.parse(inspect.getsource(mod))
-    rewritten = []
 
     class Rewrite(ast.NodeTransformer):
         def visit_Assert(self, node):
             t = node.test
             if "dtype" not in ast.unparse(t):
                 return node
-            if (isinstance(t, ast.Compare) and len(t.ops) == 1 and isinstance(t.ops[0], ast.Eq)
-                    and isinstance(t.left, ast.Attribute) and t.left.attr == "dtype"):
-                rewritten.append(ast.unparse(t))
-                node.test = ast.Call(func=ast.Name(id="_dtype_ok", ctx=ast.Load()), args=[t.left.value, t.comparators[0]], keywords=[])
-                return node
-            raise RuntimeError("dtype assertion of an unknown form in polliwog.plane._slicing: %s" % ast.unparse(t))
+            for sub in ast.walk(t):
+                if isinstance(sub, ast.Call):
+                    f = sub.func
+                    name = f.id if isinstance(f, ast.Name) else (f.attr if isinstance(f, ast.Attribute) else None)
+                    if name not in _DTYPE_ONLY_CALLS:
+                        raise RuntimeError("assertion about dtypes that also calls %s in polliwog.plane._slicing: %s"
+                                           % (ast.unparse(f), ast.unparse(t)))
+            names = sorted({n.id for n in ast.walk(t) if isinstance(n, ast.Name) and isinstance(n.ctx, ast.Load)})
+            getters = [ast.Lambda(args=ast.arguments(posonlyargs=[], args=[], kwonlyargs=[], kw_defaults=[], defaults=[]),
+                                  body=ast.Name(id=n, ctx=ast.Load())) for n in names]
+            node.test = ast.Call(
+                func=ast.Name(id="_dtype_assert", ctx=ast.Load()),
+                args=[ast.Lambda(args=ast.arguments(posonlyargs=[], args=[], kwonlyargs=[], kw_defaults=[], defaults=[]), body=t),
+                      ast.List(elts=getters, ctx=ast.Load())], keywords=[])
+            return node
 
     funcs = [Rewrite().visit(n) for n in tree.body if isinstance(n, ast.FunctionDef)]
     if not any(n.name == "slice_triangles_by_plane" for n in funcs):
         raise RuntimeError("slice_triangles_by_plane is no longer a plain function of polliwog.plane._slicing")
     g = dict(mod.__dict__)  # copied while the tracer's numpy shim is patched in, so the functions below see the shim
-    g["_dtype_ok"] = lambda arr, d: arr.dtype == object or arr.dtype == d
+    g["_dtype_assert"] = _dtype_assert
     exec(compile(ast.fix_missing_locations(ast.Module(body=funcs, type_ignores=[])), mod.__file__, "exec"), g)
     return g["slice_triangles_by_plane"]
+
+
+def traced_public_wrapper(*args, **kw):
+    """The PUBLIC function, as imported, on the tracer's symbolic arrays (the tracer's numpy shim makes `x.dtype == np.float64`
+    true for those).  Only if one of its assertions still fails on the symbolic arrays is the lazily-asserting copy used."""
+    from polliwog.plane import slice_triangles_by_plane
+
+    try:
+        return slice_triangles_by_plane(*args, **kw)
+    except AssertionError:
+        return wrapper_with_lazy_dtype_asserts()(*args, **kw)
 
 
 def _wrapper_lemma(pattern, selected, mask_coq):
@@ -129,8 +174,7 @@ def kernels():
         mask_coq = "None" if mask is None else "(Some [%s])" % ("true" if mask[0] else "false")
 
         def call(v, n, r, mask_arr=mask_arr):
-            f = wrapper_without_dtype_asserts()
-            return f(v, np.array([[0, 1, 2]]), r, n, faces_to_slice=mask_arr, ret_face_mapping=True)
+            return traced_public_wrapper(v, np.array([[0, 1, 2]]), r, n, faces_to_slice=mask_arr, ret_face_mapping=True)
 
         ks.append(Kernel(
             name, {"v": scenario(pattern), "n": NRM, "r": REF}, call, _wrapper_lemma(pattern, selected, mask_coq),
